@@ -104,7 +104,12 @@ template<unsigned M> static void run_mask(const std::vector<std::string>& inputs
         { g_calls.clear(); Ctx c(4); auto r = p.context_parse(std::move(c), string_buffer(in.c_str())); judge("moved-lvalue", r, &c, false, false, true, true);
           ++g_checks; if (c.counter != nctx || c.moved_from) fail(M, "moved-lvalue", in, "move-only context was consumed or mutations lost"); }
         { g_calls.clear(); std::ostringstream es; Ctx c(5); auto r = p.context_parse(c, parse_options{}, string_buffer(in.c_str()), es); judge("lvalue+options+stream", r, &c, false, true, true, true); }
+        { g_calls.clear(); std::ostringstream es; Ctx c(6); auto r = p.context_parse(c, string_buffer(in.c_str()), es); judge("lvalue+stream", r, &c, false, true, true, true);
+          ++g_checks; if (c.counter != nctx) fail(M, "lvalue+stream", in, "caller does not see the functors' mutations (3-argument overload)"); }
+        { g_calls.clear(); std::ostringstream es; const Ctx c(7); auto r = p.context_parse(c, string_buffer(in.c_str()), es); judge("const-lvalue+stream", r, &c, true, true, true, false); }
+        { g_calls.clear(); std::ostringstream es; Ctx c(8); auto r = p.context_parse(std::move(c), parse_options{}, string_buffer(in.c_str()), es); judge("moved-lvalue+options+stream", r, &c, false, false, true, true); }
         { g_calls.clear(); auto r = p.parse(string_buffer(in.c_str())); judge("parse()", r, nullptr, false, false, false, false); }
+        { g_calls.clear(); std::ostringstream es; auto r = p.parse(string_buffer(in.c_str()), es); judge("parse()+stream", r, nullptr, false, false, false, false); }
     }
 }
 template<unsigned... M> static void run_all(const std::vector<std::string>& inputs, std::integer_sequence<unsigned, M...>) { (run_mask<M>(inputs), ...); }
